@@ -600,116 +600,100 @@ func genThrottleLocks(c *ctx, l *leanFile, f *ast.File) {
 	sort.Strings(accessors)
 	l.strList("tableAccessors", accessors, okStruct, "struct memoryThrottler with fields mu (sync.RWMutex) and clients not found")
 
+	// no method that touches the table is handed an entry list computed elsewhere (e.g. read in an earlier
+	// critical section): what a section writes can only come from what it read itself, plus scalars
+	var listParam []string
+	if f != nil {
+		for _, d := range f.Decls {
+			fd, ok := d.(*ast.FuncDecl)
+			if !ok || fd.Body == nil || fd.Type.Params == nil {
+				continue
+			}
+			touched := false
+			ast.Inspect(fd.Body, func(n ast.Node) bool {
+				if s, ok := n.(*ast.SelectorExpr); ok && s.Sel.Name == table {
+					touched = true
+				}
+				return !touched
+			})
+			if !touched {
+				continue
+			}
+			for _, prm := range fd.Type.Params.List {
+				bad := false
+				ast.Inspect(prm.Type, func(n ast.Node) bool {
+					switch n.(type) {
+					case *ast.ArrayType, *ast.MapType, *ast.StarExpr, *ast.FuncType, *ast.ChanType, *ast.InterfaceType, *ast.Ellipsis:
+						bad = true
+					}
+					return !bad
+				})
+				if bad {
+					listParam = append(listParam, fd.Name.Name)
+					break
+				}
+			}
+		}
+	}
+	sort.Strings(listParam)
+	l.strList("tableAccessorsWithListParam", listParam, okStruct, "struct memoryThrottler not found")
+
 	an := &thrAn{f: f, recvType: recvType, mu: mu, table: table, memo: map[string][]thrPath{}, busy: map[string]bool{}}
-	for _, m := range []struct{ fact, fn string }{
-		{"getEntriesPaths", "getEntries"}, {"setEntriesPaths", "setEntries"}, {"addEntryPaths", "addEntry"},
-		{"cleanupPaths", "cleanup"}, {"throttlePaths", "throttle"}, {"checkBruteforcePaths", "CheckBruteforce"},
-	} {
+	pathsLean := func(fn string) (string, string) {
 		an.fails = nil
 		var ps []thrPath
 		if f != nil {
-			ps = an.paths(m.fn, 0)
+			ps = an.paths(fn, 0)
 		} else {
 			an.fail("throttle.go not readable")
 		}
-		l.fact(m.fact)
 		if len(an.fails) > 0 || len(ps) == 0 {
 			why := "no path found"
 			if len(an.fails) > 0 {
 				why = an.fails[0]
 			}
-			l.fail(m.fact + ": " + why)
-			l.raw(fmt.Sprintf("def %s : List (List (String × List String)) := [] -- EXTRACTION FAILED: %s", m.fact, why))
 			// a failed analysis must not be served from the memo to the next fact as if it were fine
 			an.memo = map[string][]thrPath{}
-			continue
+			return "", why
 		}
 		q := make([]string, len(ps))
 		for i, p := range ps {
 			q[i] = p.lean()
 		}
-		l.raw(fmt.Sprintf("def %s : List (List (String × List String)) := [%s]", m.fact, strings.Join(q, ", ")))
+		return "[" + strings.Join(q, ", ") + "]", ""
 	}
-
-	// CheckBruteforce writes the list it read earlier back only when pruning removed something:
-	//   entries := t.getEntries(..); l := len(entries); if l == 0 { return .. } ...
-	//   newEntries := t.filterEntries(entries, now)
-	//   if newl := len(newEntries); newl == 0 { t.setEntries(.., nil); return .. } else if newl != l { t.setEntries(.., newEntries) }
-	guardOK, guardFound := false, false
-	if fd := findFunc(f, recvType, "CheckBruteforce"); fd != nil && fd.Body != nil && fd.Recv != nil && len(fd.Recv.List[0].Names) == 1 {
-		guardFound = true
-		rv := fd.Recv.List[0].Names[0].Name
-		defined := func(name, rhs string) token.Pos {
-			pos := token.NoPos
-			n := 0
-			ast.Inspect(fd.Body, func(x ast.Node) bool {
-				if as, ok := x.(*ast.AssignStmt); ok {
-					for i, lh := range as.Lhs {
-						if isIdent(lh, name) {
-							n++
-							if len(as.Lhs) == len(as.Rhs) && as.Tok == token.DEFINE && nodeText(c, as.Rhs[i]) == rhs {
-								pos = as.Pos()
-							}
-						}
-					}
-				}
-				return true
-			})
-			if n != 1 {
-				return token.NoPos // assigned more than once: not the simple shape
-			}
-			return pos
+	for _, m := range []struct{ fact, fn string }{
+		{"addEntryPaths", "addEntry"}, {"cleanupPaths", "cleanup"}, {"throttlePaths", "throttle"},
+		{"checkBruteforcePaths", "CheckBruteforce"},
+	} {
+		l.fact(m.fact)
+		v, why := pathsLean(m.fn)
+		if why != "" {
+			l.fail(m.fact + ": " + why)
+			l.raw(fmt.Sprintf("def %s : List (List (String × List String)) := [] -- EXTRACTION FAILED: %s", m.fact, why))
+			continue
 		}
-		pEntries := defined("entries", rv+".getEntries(client, action)")
-		pL := defined("l", "len(entries)")
-		pNew := defined("newEntries", rv+".filterEntries(entries, now)")
-		pNewl := defined("newl", "len(newEntries)")
-		// early return for an empty list, before the filter
-		emptyReturn := false
-		ast.Inspect(fd.Body, func(x ast.Node) bool {
-			if ifs, ok := x.(*ast.IfStmt); ok && nodeText(c, ifs.Cond) == "l == 0" && ifs.Pos() < pNew && ifs.Pos() > pL {
-				if n := len(ifs.Body.List); n > 0 {
-					if _, ok := ifs.Body.List[n-1].(*ast.ReturnStmt); ok {
-						emptyReturn = true
-					}
-				}
-			}
-			return true
-		})
-		calls, good := 0, 0
-		ast.Inspect(fd.Body, func(x ast.Node) bool {
-			call, ok := x.(*ast.CallExpr)
-			if !ok {
-				return true
-			}
-			sel, ok := call.Fun.(*ast.SelectorExpr)
-			if !ok || !isIdent(sel.X, rv) || sel.Sel.Name != "setEntries" {
-				return true
-			}
-			calls++
-			if len(call.Args) != 3 || call.Pos() < pNew {
-				return true
-			}
-			ifs := enclosingIfs(fd, call)
-			if len(ifs) == 0 {
-				return true
-			}
-			inner := ifs[len(ifs)-1]
-			inBody := inner.Body.Pos() <= call.Pos() && call.End() <= inner.Body.End()
-			cond := nodeText(c, inner.Cond)
-			arg := nodeText(c, call.Args[2])
-			initOK := false
-			for _, e := range ifs {
-				if e.Init != nil && e.Init.Pos() == pNewl {
-					initOK = true
-				}
-			}
-			if inBody && initOK && ((arg == "nil" && cond == "newl == 0") || (arg == "newEntries" && cond == "newl != l")) {
-				good++
-			}
-			return true
-		})
-		guardOK = pEntries != token.NoPos && pL > pEntries && pNew > pL && pNewl > pNew && emptyReturn && calls > 0 && calls == good
+		l.raw(fmt.Sprintf("def %s : List (List (String × List String)) := %s", m.fact, v))
 	}
-	l.boolean("writeBackOnlyIfPruned", guardOK, guardFound, "memoryThrottler.CheckBruteforce not found")
+	// ... and the sections of every function that touches the table, whatever it is called
+	l.fact("accessorPaths")
+	var accs []string
+	accWhy := ""
+	for _, name := range accessors {
+		v, why := pathsLean(name)
+		if why != "" {
+			accWhy = why
+			break
+		}
+		accs = append(accs, fmt.Sprintf("(%s, %s)", leanStr(name), v))
+	}
+	if accWhy != "" || len(accessors) == 0 {
+		if accWhy == "" {
+			accWhy = "no function touches the table"
+		}
+		l.fail("accessorPaths: " + accWhy)
+		l.raw("def accessorPaths : List (String × List (List (String × List String))) := [] -- EXTRACTION FAILED: " + accWhy)
+	} else {
+		l.raw("def accessorPaths : List (String × List (List (String × List String))) := [" + strings.Join(accs, ", ") + "]")
+	}
 }
